@@ -12,7 +12,9 @@ SPEC = {
              "exactly the value (silent truncation = violation). On the probe values, from an all-zero and an all-ones baseline: no other getter moves "
              "(documented alias groups excepted); in the standalone serialization, outside checksum/length bytes, value bit i changes exactly one bit, the "
              "bits of a field are contiguous in network order (little-endian allowed for 802.11/RadioTap/Loopback), their number equals the declared width "
-             "and the bit sets of two fields of a class are disjoint. distinct_nontrivial = distinct (class, field) pairs swept."),
+             "and the bit sets of two fields of a class are disjoint. The serialization has to follow the setter: if the prior state serializes and the value "
+             "set on a default object serializes, a serialize() that throws after setting it on the prior state is a violation (history-dependent setter). "
+             "Positions are compared with a table of the bit positions the specifications assign to 116 fields. distinct_nontrivial = distinct (class, field) pairs swept."),
     "claim": "Every scalar accessor pair of every layer class is swept over its whole value space (<= 16 bits) or over all single-bit and lane patterns (wider).",
     "note": "Trusted: alias-group and derived-byte tables in the harness (documented views of the same bits; checksum/length bytes), sanitizers.",
     "assumptions": ["absolute offsets against the RFCs are cross-checked by C05's dissector, not here",
